@@ -253,6 +253,8 @@ func c08Run(r *core.Run) {
 		s.NeighbourNoise(enc)
 	case 2:
 		s.WarmUpThenReconfigure(enc)
+	case 3:
+		OtherAPICalls(r, s.Node.SP, 7)
 	}
 	resp, out := s.Node.ValidateResponse(enc)
 	r.Steps++
